@@ -126,6 +126,16 @@ fn gen_form(rng: &mut Rng, literals_with_parens: bool, defined: &mut Vec<String>
             ("'".to_string(), "dangling-datum")
         }
         8 => ((*rng.pick(&["(define)", "(if)", "(lambda)", "(let ((x)) x)", ")", "(+ 1 2) )"])).to_string(), "failing-syntax"),
+        9 if rng.chance(1, 5) => {
+            // a macro whose rule uses the ellipsis (the token `...` may end a line of the form),
+            // and its use
+            let n = rng.range(1, 3);
+            if rng.chance(1, 2) {
+                (format!("(define-syntax lst{n} (syntax-rules () ((lst{n} a ...) (list a ...))))", n = n), "macro-definition")
+            } else {
+                (format!("(lst{} 1 2 {})", n, rng.range(0, 9)), "macro-use")
+            }
+        }
         9 if rng.chance(1, 3) => {
             // a macro defined in the session, to be used by later submissions
             let n = rng.range(1, 3);
@@ -164,6 +174,12 @@ fn gen_form(rng: &mut Rng, literals_with_parens: bool, defined: &mut Vec<String>
         15 => ("(list \")\" #\\) \"(()\")".to_string(), "paren-in-string"),
         16 => ("(display \"q\\\"(\")".to_string(), "paren-in-string"),
         17 => ("(cons #\\; '(after))".to_string(), "semicolon-in-character"),
+        18 if rng.chance(1, 2) => {
+            // a |quoted identifier| whose last character is a backslash (no escapes in there)
+            let name = format!("v{}", defined.len());
+            defined.push(name.clone());
+            (format!("(define {} (quote |a\\|))", name), "backslash-in-identifier")
+        }
         18 => ("(quote |a(b;c|)".to_string(), "paren-in-identifier"),
         19 if rng.chance(1, 2) => {
             // a string that ends in an escaped backslash
